@@ -16,7 +16,7 @@ def row(v, fid, frame):
 
 def gen_cases(corpus, vectors, tier, rng):
     """Yield (fid, meta, frame)"""
-    cap = 1 if tier == 'quick' else 6
+    cap = 1 if tier == 'quick' else 20
     persite = {}
 
     def site_ok(site):
@@ -35,7 +35,7 @@ def gen_cases(corpus, vectors, tier, rng):
             for op in ops + extra:
                 lens = [0, 1, 2, 3, 4, 8, 16, 64] if tier == 'quick' else list(range(0, 65)) + [200, 1000, 5000]
                 for L in lens:
-                    for rep in range(1 if tier == 'quick' else 2):
+                    for rep in range(1 if tier == 'quick' else 5):
                         kind = rng.choice(['rand', 'zeros', 'ones', 'small'])
                         if kind == 'rand':
                             body = bytes(rng.getrandbits(8) for _ in range(L))
@@ -96,7 +96,7 @@ def run(tier, replay=None):
         metas[rp['row'][0]] = rp['meta']
         rows.append(rp['row'])
     else:
-        corpus, sv, vectors, stats = V.build(tier, k=0 if tier == 'quick' else 3)
+        corpus, sv, vectors, stats = V.build(tier, k=0 if tier == 'quick' else 8)
         for fid, meta, frame in gen_cases(corpus, vectors, tier, rng):
             if fid in metas:
                 continue
